@@ -1,6 +1,7 @@
 package sqlcrud
 
 import (
+	"fmt"
 	"go/types"
 
 	an "github.com/benoitkugler/gomacro/analysis"
@@ -27,4 +28,34 @@ func HC18_selectKeys() {
 	vfObserve("outcome", msg)
 	vfAssert(!rt, "C18/directive-naming-an-unknown-column-no-runtime-error")
 	_ = panicked
+}
+
+// HC18_primaryPosition: the CRUD generator on tables whose id field stands at any position among
+// exported, unexported and unexported-guard fields: no runtime error (the index of the primary key is
+// an index into the columns, which skip unexported fields).
+func HC18_primaryPosition() {
+	pkg := skelPkg()
+	n := 2 + vfChoice("fields", 3)
+	idAt := vfChoice("idAt", n)
+	var fields []skelField
+	for i := 0; i < n; i++ {
+		if i == idAt {
+			fields = append(fields, skelField{name: []string{"Id", "ID"}[vfChoice("idName", 2)], typ: &an.Basic{B: types.Typ[types.Int64]}})
+			continue
+		}
+		switch vfChoice(fmt.Sprint("kind", i), 3) {
+		case 0:
+			fields = append(fields, skelField{name: fmt.Sprint("F", i), typ: an.String})
+		case 1:
+			fields = append(fields, skelField{name: fmt.Sprint("f", i), typ: an.Bool})
+		default:
+			fields = append(fields, skelField{name: fmt.Sprint("g", i), typ: an.Int, extra: ` gomacro-sql-guard:"7"`})
+		}
+	}
+	named := skelNamed(pkg, "Item", types.NewStruct(nil, nil))
+	st := skelStruct(pkg, named, fields)
+	ana := &an.Analysis{Pkg: &packages.Package{PkgPath: pkg.Path(), Types: pkg}, Types: map[types.Type]an.Type{named: st}, Source: []types.Type{named}}
+	rt, msg := skelDiagnostic(func() { Generate(ana, false) })
+	vfObserve("outcome", msg)
+	vfAssert(!rt, "C18/sqlcrud-no-runtime-error")
 }
